@@ -1262,14 +1262,46 @@ def _describe_local(prog, body, l, depth, seen):
     return _describe_def(prog, body, ds[0], depth + 1, seen)
 
 
+def _subst(d, params, upvars):
+    """description `d` of a closure body's value with its parameters / captured values replaced by descriptions in the caller"""
+    if isinstance(d, tuple):
+        if d and d[0] == "param" and d[1] in params:
+            return params[d[1]]
+        if d and d[0] == "upvar" and isinstance(d[1], int) and d[1] < len(upvars):
+            return upvars[d[1]]
+        return tuple(_subst(x, params, upvars) for x in d)
+    if isinstance(d, list):
+        return [_subst(x, params, upvars) for x in d]
+    return d
+
+
+def _array_map(prog, arr, clo):
+    if not (isinstance(arr, tuple) and arr[0] == "array" and isinstance(clo, tuple) and clo[0] == "closure" and clo[1] in prog.bodies):
+        return None
+    cb = prog.bodies[clo[1]]
+    if cb.argc != 2 or any(blk["term"] and blk["term"]["k"] in ("call", "switch") for blk in cb.blocks if not blk.get("cleanup")):
+        return None
+    r = describe(prog, cb, 0)
+    if desc_contains(r, lambda y: y[0] in ("multi", "deep", "local")):
+        return None
+    caps = list(clo[2]) if len(clo) > 2 else []
+    return ("array", [_subst(r, {2: el}, caps) for el in arr[1]])
+
+
 def _describe_def(prog, body, d, depth, seen):
     if depth > DESCRIBE_DEPTH:
         return ("deep",)
     b, i, kind, payload = d
     if kind == "call":
         t = payload
-        return ("call", t.get("resolved") or t.get("callee") or "<indirect>",
-                [describe(prog, body, a, depth + 1, seen) for a in t["args"]], b)
+        args_ = [describe(prog, body, a, depth + 1, seen) for a in t["args"]]
+        name_ = t.get("resolved") or t.get("callee") or "<indirect>"
+        if name_.endswith("array::<impl [T; N]>::map") and len(args_) == 2:
+            # `[c0, c1, ..].map(|x| e(x))` over an array built in place with a straight-line closure: the array of e(ci)
+            ex = _array_map(prog, args_[0], args_[1])
+            if ex is not None:
+                return ex
+        return ("call", name_, args_, b)
     rv = payload["rv"]
     k = rv["k"]
     if k in ("use", "cast"):
